@@ -51,3 +51,22 @@ pub fn get(id: &str) -> Option<Box<dyn Property>> {
         _ => None,
     }
 }
+
+/// Process-global lazily initialised state inside sozu and its dependencies (rustls provider, X.509 OID
+/// tables, default answer templates, regexes, ...) is built the first time a run needs it and draws from
+/// the *current* run's seeded entropy (per-thread hash keys come from getrandom). Which run is "the first"
+/// depends on how plans are distributed over worker processes, so every process first executes a fixed set
+/// of throw-away runs that touch those paths; afterwards a plan's trace is a function of the plan alone.
+pub fn warm_up(id: &str) {
+    const NETSIM: [&str; 11] = ["C01", "C02", "C03", "C08", "C10", "C13", "C14", "C15", "C16", "C17", "C18"];
+    if !NETSIM.contains(&id) { return; }
+    use crate::framework::Tier;
+    let _ = crate::scenario::run_http(&c01::generate(7, Tier::Quick), false);
+    let mut seen = std::collections::BTreeSet::new();
+    for seed in 1..40u64 {
+        let m = c14::gen_mux(seed, Tier::Quick, c14::Focus::Bodies, "warmup");
+        let fam: String = m.family.chars().take(5).collect();
+        if seen.insert(fam) { let _ = crate::muxscn::run_mux(&m, false); }
+        if seen.len() >= 3 { break; }
+    }
+}
